@@ -1359,6 +1359,16 @@ theorem slotInv_step {cfg : Cfg} {s : Slot} (hg : SlotGood cfg s) (st : St) (op 
   | patch k m => exact slotInv_stepPatch hg st k m h
   | patchExpired m => exact slotInv_stepPatchExpired hg st m h
   | shiftMatch q => exact slotInv_stepShiftMatch hg st q h
+  | shiftKeys ks => exact slotInv_foldDel ks st h
+  | patchCreate k m =>
+    simp only [step, stepPatchCreate]
+    split
+    · exact slotInv_stepSet hg st _ h
+    · split
+      · exact slotInv_stepSet hg st _ h
+      · split
+        · exact slotInv_stepSet hg st _ h
+        · exact h
 
 theorem slotInv_run {cfg : Cfg} {s : Slot} (hg : SlotGood cfg s) (h : List Op) : SlotInv s (run cfg h) := by
   unfold run
